@@ -9,6 +9,7 @@ import (
 	"go/token"
 	"go/types"
 	"math/big"
+	"strings"
 )
 
 var (
@@ -504,8 +505,9 @@ func (e *Env) evalUnary(y *ast.UnaryExpr, st *State) Value {
 				return App("addr$"+structKey(owner)+"."+fld.Name(), SInt, ref)
 			}
 		case *ast.IndexExpr:
-			e.eval(z.X, st)
-			e.eval(z.Index, st)
+			if r := e.elemAddr(z, st); r != nil {
+				return r
+			}
 		}
 		r := c.freshVar("addr", SInt)
 		st.assume(IGt(r, IntC(0)))
@@ -516,6 +518,58 @@ func (e *Env) evalUnary(y *ast.UnaryExpr, st *State) Value {
 		return rv
 	}
 	return e.opaque(y, st)
+}
+
+// elemAddr models &s[i] for a slice (or array) of structs whose fields are all leaves or slices: the pointer is the
+// term eptr$T(base, absolute index), and loadField / storeField through such a pointer read and write the element
+// memory of T, so a write through the pointer is a write of the element. Other element types keep the older model
+// (a fresh address not tied to the element: reads through it are unconstrained, writes through it do not reach the
+// element — listed as an assumption in the evidence).
+func (e *Env) elemAddr(z *ast.IndexExpr, st *State) *Term {
+	c := e.C
+	bt := e.Info.TypeOf(z.X)
+	base := e.eval(z.X, st)
+	idx := e.eval(z.Index, st)
+	if bt == nil || c.AbsKeys && (isInternalKeyType(bt) || isByteSlice(bt)) {
+		return nil
+	}
+	switch bt.Underlying().(type) {
+	case *types.Slice, *types.Array:
+	default:
+		return nil
+	}
+	sl, ok := e.asSlice(base, bt, st)
+	it, ok2 := idx.(*Term)
+	if !ok || !ok2 || !flatStruct(sl.Elem) {
+		return nil
+	}
+	it = c.toIdx(it, e.Info.TypeOf(z.Index))
+	c.safety(st, "bounds", z.Pos(), And(c.ile(c.idxC(0), it), c.ilt(it, sl.Len)), "index in range")
+	r := App("eptr$"+structKey(sl.Elem), SInt, sl.Base, c.iadd(sl.Off, it))
+	st.assume(IGt(r, IntC(0)))
+	return r
+}
+
+// flatStruct: a named struct type none of whose fields is itself a struct or an array.
+func flatStruct(t types.Type) bool {
+	if namedOf(t) == nil {
+		return false
+	}
+	s, ok := t.Underlying().(*types.Struct)
+	if !ok {
+		return false
+	}
+	for i := 0; i < s.NumFields(); i++ {
+		switch s.Field(i).Type().Underlying().(type) {
+		case *types.Struct, *types.Array:
+			return false
+		}
+	}
+	return true
+}
+
+func isElemPtr(ref *Term) bool {
+	return ref != nil && ref.Op == "app" && strings.HasPrefix(ref.Name, "eptr$") && len(ref.Args) == 2
 }
 
 func exprHasCall(x ast.Expr) bool {
